@@ -112,7 +112,7 @@ func VerifH_C06_damage() {
 	goodFrame := frame("OSMData", good.encode())
 	badPayload := bad.encode()
 	var badFrame []byte
-	kind := vRange("damage", 0, 10)
+	kind := vRange("damage", 0, 11)
 	switch kind {
 	case 0: // header size >= 64K (symbolic)
 		sz := vU32("hdrsize")
@@ -142,6 +142,12 @@ func VerifH_C06_damage() {
 		z := vZlib(badPayload)
 		var b pbw
 		b.varintField(2, uint64(vRange("shortsize", 0, len(badPayload)-1)), 1)
+		b.bytesField(3, z)
+		badFrame = frameWith("OSMData", b.b, nil, uint64(len(b.b)), 1)
+	case 11: // zlib stream that inflates to nothing although raw_size announces data
+		z := vZlib(nil)
+		var b pbw
+		b.varintField(2, uint64(len(badPayload)), 1)
 		b.bytesField(3, z)
 		badFrame = frameWith("OSMData", b.b, nil, uint64(len(b.b)), 1)
 	case 6: // corrupt compressed data
